@@ -121,6 +121,15 @@ where
                 );
             }
             Err(e) => {
+                // The same holds when the client has reset its side before the headers were
+                // complete: abort the response stream, dropping it would finish it cleanly
+                // without any response on it
+                if let FrameStreamError::Quic(quic::StreamErrorIncoming::StreamTerminated {
+                    ..
+                }) = e
+                {
+                    self.frame_stream.reset(Code::H3_REQUEST_INCOMPLETE.value());
+                }
                 return Err(self.handle_frame_stream_error_on_request_stream(e));
             }
         };
